@@ -38,10 +38,13 @@ type c09Cfg struct {
 	// Stats: GetStats, GetDetailedStats and Stream().ResetStats() are called after every row (statistics are not
 	// window state: the batches are what they are without these calls)
 	Stats bool `json:"stats_calls_between_rows,omitempty"`
+	// PanicSink: a synchronous sink registered before the observing one panics on every batch; the engine recovers
+	// such panics, and what the observing sink is given is what it is given without the panicking neighbour
+	PanicSink bool `json:"panicking_neighbour_sink,omitempty"`
 }
 
 func c09Opts(cfg c09Cfg) detOpts {
-	o := detOpts{Eager: cfg.Eager, Horizon: 300 * vtime.Millisecond}
+	o := detOpts{Eager: cfg.Eager, Horizon: 300 * vtime.Millisecond, PanicSink: cfg.PanicSink}
 	if cfg.Block {
 		p := smallPerf("block", 64, 64, 1)
 		o.Perf = &p
@@ -82,6 +85,7 @@ func c09Configs(tier string) []c09Cfg {
 	}
 	for _, n := range []int{2, 3} {
 		out = append(out, c09Cfg{N: n, Cols: 1, Eager: true, MaxL: maxL - 1, Stats: true})
+		out = append(out, c09Cfg{N: n, Cols: 1, Eager: false, MaxL: maxL - 1, PanicSink: true})
 	}
 	return out
 }
